@@ -198,8 +198,9 @@ def run_check(
         small["violation"] = v.to_json()
         small["shrink_executions"] = used
         small["original_len"] = len(trace["ops"])
-        os.makedirs(os.path.join(VERIF_ROOT, "replays"), exist_ok=True)
-        path = os.path.join(VERIF_ROOT, "replays", f"{prop}-{r['seed']}.json")
+        rdir = os.environ.get("VERIF_REPLAY_DIR") or os.path.join(VERIF_ROOT, "replays")
+        os.makedirs(rdir, exist_ok=True)
+        path = os.path.join(rdir, f"{prop}-{r['seed']}.json")
         with open(path, "w") as f:
             json.dump(small, f, indent=1, sort_keys=True)
         got = confirm_fresh(engine_name, path, prop)
